@@ -12,9 +12,10 @@ from sv import core
 
 PROPERTY = "C15"
 GEN = []
-PROPS = ["ScoresVerif/Props/C15.lean"]
+PROPS = ["ScoresVerif/Props/C15.lean", "ScoresVerif/Props/C15MaxMin.lean"]
 DRIVER_DEPS = ["ScoresVerif.Driver.C15"]
 AUDIT_FILES = ["ScoresVerif/Model/Isotonic.lean", "ScoresVerif/Spec/Isotonic.lean", "ScoresVerif/Lemmas/Isotonic.lean",
+               "ScoresVerif/Lemmas/IsotonicC15.lean",
                "ScoresVerif/Driver/C15.lean"]
 LEVEL = "proof"
 TRUSTED = ["scipy.optimize.isotonic_regression (mean functional) is outside the proof: tied to the PAV model and to the "
@@ -33,7 +34,9 @@ MANIFEST = dict(
          "valid pairs; for the mean functional (positive weights): min obs <= fit <= max obs, sum w*fit = sum w*obs, the KKT prefix "
          "invariant, OPTIMALITY with a strong-convexity gap (sum w(y-fit)^2 + sum w(fit-z)^2 <= sum w(y-z)^2 for every competitor "
          "non-decreasing in the forecast, in particular every monotone function of the forecast over the pairs in any order) and "
-         "UNIQUENESS; the model of _nanquantile is monotone in the level, hence lower <= upper on every column of any bootstrap matrix. "
+         "UNIQUENESS; fit = MAX-MIN formula (sequence form, and model result = Spec.isoFit table over the forecast groups of the "
+         "unsorted pairs) and PERMUTATION INVARIANCE of the whole result under reordering of the input triples; quantile functional: "
+         "every block value lies between two observations of its block; the model of _nanquantile is monotone in the level, hence lower <= upper on every column of any bootstrap matrix. "
          "The model is tied to the code by differential correspondence (numpy/xarray inputs of 1-3 dims, permuted dims and "
          "shuffled coordinates, heavy ties, NaN, weights, mean / quantile / 10 custom solvers, regression_func, confidence-band "
          "arithmetic on the reported bootstrap matrix); the property oracle compares the real isotonic_fit with the exact max-min "
@@ -42,8 +45,9 @@ MANIFEST = dict(
          "weighted-mean preservation, counts, block = solver(block), lower <= upper and fixed-seed reproducibility.",
     note="Trusted: Lean kernel; propext/Classical.choice/Quot.sound; the hand model (no translator for this property) and the harness; "
          "scipy.optimize.isotonic_regression (used by the code for the mean functional) is OUTSIDE the proof — the PAV model with the "
-         "weighted-mean solver is tied to it only by the correspondence check. Not proved: 'fit = max-min formula' (the Spec is used as "
-         "the test oracle only) and permutation invariance as a Lean theorem (both observed by the oracle; uniqueness is proved). "
+         "weighted-mean solver is tied to it only by the correspondence check. Proved for the mean functional with positive weights "
+         "(Props/C15MaxMin.lean): model result = Spec.isoFit (the oracle's max-min formula), permutation invariance; for quantile / "
+         "custom solvers permutation invariance is observed by the oracle only. "
          "Bootstrap resampling uses numpy's global RNG and is not modelled: the band arithmetic is modelled on the matrix the code reports "
          "(lower <= upper proved there), reproducibility for a fixed seed is observed, not proved. "
          "Custom solvers are assumed to be the identity on a single observation (notes/C15.md, interpretation). Infinite inputs, dtype "
